@@ -712,3 +712,59 @@ Proof.
   pose proof (replaced_firstn_load g es j Hl) as E.
   rewrite E, Hb in H2. rewrite nth_error_last in H2. inversion H2. reflexivity.
 Qed.
+
+(** * generations: what the live generation receives is not disturbed by other generations *)
+Definition other_ids_differ (g i : nat) (st : rstate) : Prop :=
+  forall g' i', nlookup g' (held st) = Some i' -> g' <> g -> i' <> i.
+
+Definition quiet_for (g i : nat) (e : wev) : Prop :=
+  match e with
+  | WSub g' i' _ => g' <> g /\ i' <> i   (* other generations, with other ids *)
+  | WStop g' => g' <> g                  (* the live generation does not stop itself *)
+  | WReport _ => True
+  end.
+
+Lemma drop_id_keeps id i g l : id <> i -> In (i, g) l -> In (i, g) (drop_id id l).
+Proof.
+  intros Hne Hin. unfold drop_id. apply filter_In. split; [exact Hin|]. cbn.
+  destruct (Nat.eqb i id) eqn:E; [apply Nat.eqb_eq in E; congruence|reflexivity].
+Qed.
+
+Lemma rstep_keeps g i st e :
+  In (i, g) (subs st) -> other_ids_differ g i st -> quiet_for g i e ->
+  In (i, g) (subs (fst (rstep st e))) /\ other_ids_differ g i (fst (rstep st e)).
+Proof.
+  intros Hin Hd Hq. destruct e as [g' i' l|g'|r]; cbn [rstep quiet_for] in *.
+  - destruct Hq as [Hg Hi]. cbn [fst subs held]. split.
+    + right. apply drop_id_keeps; [exact Hi|exact Hin].
+    + intros g2 i2 H2 Hne. cbn [held nlookup] in H2. destruct (Nat.eqb g2 g') eqn:E.
+      * inversion H2; subst. exact Hi.
+      * eapply Hd; eassumption.
+  - destruct (nlookup g' (held st)) as [id|] eqn:E; cbn [fst subs held]; [|auto].
+    split; [|exact Hd]. apply drop_id_keeps; [|exact Hin]. eapply Hd; eassumption.
+  - auto.
+Qed.
+
+Lemma rfinal_keeps g i : forall evs st,
+  In (i, g) (subs st) -> other_ids_differ g i st -> Forall (quiet_for g i) evs ->
+  In (i, g) (subs (rfinal st evs)) /\ other_ids_differ g i (rfinal st evs).
+Proof.
+  induction evs as [|e t IH]; intros st Hin Hd HF; [auto|].
+  inversion HF as [|? ? Hq Ht]; subst. destruct (rstep_keeps g i st e Hin Hd Hq) as [H1 H2].
+  unfold rfinal. cbn [fold_left]. apply IH; assumption.
+Qed.
+
+(** after generation g subscribed with id i, whatever OTHER generations do with OTHER ids
+    (subscribe, stop - in any order, any number of times), every report made is delivered to g *)
+Lemma live_generation_receives g i l st pre r :
+  other_ids_differ g i st -> Forall (quiet_for g i) pre ->
+  In (g, r) (snd (rstep (rfinal (fst (rstep st (WSub g i l))) pre) (WReport r))).
+Proof.
+  intros Hd HF.
+  assert (H0 : In (i, g) (subs (fst (rstep st (WSub g i l))))) by (cbn; left; reflexivity).
+  assert (H1 : other_ids_differ g i (fst (rstep st (WSub g i l)))).
+  { intros g2 i2 H2 Hne. cbn [rstep fst held nlookup] in H2. destruct (Nat.eqb g2 g) eqn:E; [apply Nat.eqb_eq in E; congruence|].
+    eapply Hd; eassumption. }
+  destruct (rfinal_keeps g i pre _ H0 H1 HF) as [Hin _].
+  cbn [rstep snd]. apply in_map_iff. exists (i, g). split; [reflexivity|exact Hin].
+Qed.
